@@ -11,7 +11,7 @@ TECH = "Rocq theorem over an executable model + differential correspondence with
 # id -> (level text, level note)   ; absent => not_applicable with REASON
 CLAIMED = {
  "C01": (
-  "Coq theorems (coq/Properties/C01.v, 28 pinned, axiom-free, coqchk: Axioms <none>) over an executable pointer machine that mirrors add_bytes / remove_bytes / every "
+  "Coq theorems (coq/Properties/C01.v, 29 pinned, axiom-free, coqchk: Axioms <none>) over an executable pointer machine that mirrors add_bytes / remove_bytes / every "
   "resize_notification / every container operation line by line (memory as the whole allocation, pointer trees mirroring every Rust "
   "Ptr type incl. UnsizedList's inner_exclusive / possible_mut_borrow / range). PROVED for EVERY enum-free shape - structs, lists of any "
   "element type / prefix width, trailing RemainingBytes, lists and maps of unsized elements nested to any depth - every well-formed value, "
@@ -29,10 +29,10 @@ CLAIMED = {
   "operations' observations), and C01_keyed_views_stay_sorted. "
   "C01_dispatcher_tie / _all_ops prove that the dispatcher the extracted runner executes returns what descent + operation return. The "
   "flat-shape theorems of the first round remain as the special case. UnsizedMap insert on an existing key, UnsizedString, non-default and "
-  "failing initializers and enums are tied by correspondence: 1.5k (quick) / 40k (thorough) generated histories on 21 Rust shapes nested to "
+  "failing initializers and enums are tied by correspondence: 1.5k (quick) / 40k (thorough) generated histories on 25 Rust shapes (four with generated enums: variant switches, operations inside the live variant) nested to "
   "depth 3 run through the real ExclusiveWrapper API and the extracted machine (0 disagreements), judged against an independent "
   "plain-Vec/BTreeMap oracle in Python.",
-  "PARTIAL (stated in Properties/C01.v): UnsizedMap insert on an existing key (element replaced through set_from_init), UnsizedString, "
+  "PARTIAL (stated in Properties/C01.v): UnsizedString, "
   "non-default initializers and the failing-initializer paths (D16) are in the machine and the correspondence but have no refinement "
   "theorem; enums are in the encode/parse universe (C04/C05) but neither in the operations harness nor in the refinement. Found and fixed D7 (stale inner pointer not "
   "shifted), D18 (empty trailing RemainingBytes at full capacity: found while proving the flat pointer assertions) and D26 (a STALE "
@@ -69,7 +69,7 @@ CLAIMED = {
   "range, length prefix, growth beyond the allowance, growth refused by the data access - is returned with the owned model's code before "
   "any write; the state reached by the descent still represents the same value with canonical bytes and exact length; histories with "
   "failures in them keep refining the owned model step by step (C06_general_failure_is_clean, C06_general_continue_after_failures; "
-  "C06_all_ops_failure_is_clean for the full operation set incl. element-level insert / remove of lists of unsized elements, whose "
+  "C06_all_ops_failure_is_clean / C06_all_ops_continue_after_failures for the full operation set incl. element-level insert / remove of lists of unsized elements, whose "
   "checks all precede the first write; flat-shape theorems as the special case). Tie: 1.8k (quick) / 40k (thorough) histories with growth refused during step k (k swept "
   "over every step of 21 growth-heavy histories) and a generator biased to failing operations; after a failed operation bytes, length, "
   "live accessors and a fresh parse are observed and further operations applied; model, implementation and the plain oracle must agree. "
